@@ -46,6 +46,8 @@ Definition STITCH_TRUE : N := 1.
 
 (* ---------------------------------------------------------------- small list helpers *)
 Definition memb (x : N) (l : list N) : bool := existsb (N.eqb x) l.
+Fixpoint nodupb (l : list N) : bool :=
+  match l with [] => true | x :: r => negb (memb x r) && nodupb r end.
 Definition set_add (x : N) (l : list N) : list N := if memb x l then l else l ++ [x].
 Definition set_union (l xs : list N) : list N := fold_left (fun acc x => set_add x acc) xs l.
 Definition removeN (x : N) (l : list N) : list N := filter (fun y => negb (y =? x)) l.
@@ -222,17 +224,38 @@ Definition st_gen_one (garm : N) (ids : list N) (c : catalog) (stitch : list N) 
   let remove := filter (fun i => negb (memb i keep)) ids in
   fold_left (fun s id => supd s gid (fun g => delete_node g id)) remove st2.
 
-(* guids: the graph id given to each delegation id (delegation_guids / uuid4), in c_ids order *)
-Definition st_generate_adms (st : store) (garm : N) (gid_of : N -> N) : result (store * list (N * N)) :=
+(* delegation_guids: the caller-supplied dictionary delegation id -> graph id (unique keys); fresh: what
+   str(uuid.uuid4()) returns for the delegation ids the caller did not mention.  Since 59579dc the supplied ids
+   of the delegation ids present must not name the ARM graph itself and must be pairwise distinct; the test
+   happens after catalog_delegations and before any clone, so a rejected call leaves the store as it was. *)
+Definition supplied_for (supplied : list (N * N)) (ds : list N) : list N :=
+  flat_map (fun d => match assoc d supplied with Some g => [g] | None => [] end) ds.
+Definition guids_ok (garm : N) (supplied : list (N * N)) (ds : list N) : bool :=
+  negb (memb garm (supplied_for supplied ds)) && nodupb (supplied_for supplied ds).
+Definition gid_for (supplied : list (N * N)) (fresh : N -> N) (d : N) : N :=
+  match assoc d supplied with Some g => g | None => fresh d end.
+
+Definition st_generate_adms (st : store) (garm : N) (supplied : list (N * N)) (fresh : N -> N)
+  : store * result (list (N * N)) :=
   let arm := sview st garm in
   let ids := node_ids arm in
   match ids with
-  | [] => Err EQuery
+  | [] => (st, Err EQuery)
   | _ => let stitch := stitch_nodes arm in
          let c := catalog_delegations arm in
-         let dgs := map (fun d => (d, gid_of d)) (c_ids c) in
-         Ok (fold_left (st_gen_one garm ids c stitch) dgs st, dgs)
+         if guids_ok garm supplied (c_ids c)
+         then let dgs := map (fun d => (d, gid_for supplied fresh d)) (c_ids c) in
+              (fold_left (st_gen_one garm ids c stitch) dgs st, Ok dgs)
+         else (st, Err EQuery)
   end.
+
+(* what is assumed of uuid4: the ids it hands out (for the delegation ids without a supplied graph id) are not
+   the ARM's, not one another and not one of the supplied ones *)
+Definition generated_ids (supplied : list (N * N)) (ds : list N) : list N :=
+  filter (fun d => negb (is_some (assoc d supplied))) ds.
+Definition uuid_fresh (garm : N) (supplied : list (N * N)) (fresh : N -> N) (ds : list N) : Prop :=
+  ~ In garm (map fresh (generated_ids supplied ds)) /\ NoDup (map fresh (generated_ids supplied ds)) /\
+  forall d, In d (generated_ids supplied ds) -> ~ In (fresh d) (supplied_for supplied ds).
 
 (* ---------------------------------------------------------------- ADM.rewrite_delegations *)
 Definition rekey (gid : N) (o : option dmap) : result (option dmap) :=
@@ -276,8 +299,6 @@ Definition rekey_map (gid : N) (o : option dmap) : option dmap :=
 Definition rekeyed (gid : N) (n : node) : node := set_cdel (rekey_map gid (cdel n)) (set_ldel (rekey_map gid (ldel n)) n).
 
 (* ---------------------------------------------------------------- well-formedness (boolean) *)
-Fixpoint nodupb (l : list N) : bool :=
-  match l with [] => true | x :: r => negb (memb x r) && nodupb r end.
 
 Definition dmap_ok (o : option dmap) : bool := nodupb (dkeys (entries o)).
 
@@ -356,7 +377,7 @@ Record obs13 := mkObs {
                                                     the store's node order (decides what is already rewritten
                                                     when a node with several ids raises), result, raised? *)
 
-Record case13 := mkCase { k_arm : graph; k_garm : N; k_obs : obs13 }.
+Record case13 := mkCase { k_arm : graph; k_garm : N; k_supplied : list (N * N); k_obs : obs13 }.
 
 Definition eq_rw (r : graph * option exn) (o : graph * bool) : bool :=
   graph_eqb (fst r) (fst o) && Bool.eqb (is_some (snd r)) (snd o).
@@ -364,24 +385,34 @@ Definition eq_rw (r : graph * option exn) (o : graph * bool) : bool :=
 Definition check13 (k : case13) : bool :=
   let A := k_arm k in
   let o := k_obs k in
+  let st0 := [(k_garm k, A)] in
+  let after := match o_arm_after o with Some g => g | None => A end in
   wfb A &&
-  match generate_adms A, o_adms o with
-  | Err _, Err _ => true
-  | Ok L, Ok OB =>
+  match o_adms o with
+  | Err _ =>
+      (* the implementation raised: the store-level model raises too and, like the code, has touched nothing *)
+      match st_generate_adms st0 (k_garm k) (k_supplied k) (fun _ => 0) with
+      | (st, Err _) => list_eqb N.eqb (map fst (sort_by st)) (o_store_keys o) && graph_eqb (sview st (k_garm k)) after
+      | (_, Ok _) => false
+      end
+  | Ok OB =>
       (* pure model vs the returned dictionary *)
-      list_eqb (fun x y => (fst x =? fst (fst y)) && graph_eqb (snd x) (snd y)) (sort_by L) OB &&
-      (* store-level model vs the store afterwards *)
-      (let gid_of := fun d => match assoc d (map fst OB) with Some g => g | None => 0 end in
-       match st_generate_adms [(k_garm k, A)] (k_garm k) gid_of with
-       | Err _ => false
-       | Ok (st, dgs) =>
+      match generate_adms A with
+      | Ok L => list_eqb (fun x y => (fst x =? fst (fst y)) && graph_eqb (snd x) (snd y)) (sort_by L) OB
+      | Err _ => false
+      end &&
+      (* store-level model vs the store afterwards; uuid4 results as observed *)
+      (let fresh := fun d => match assoc d (map fst OB) with Some g => g | None => 0 end in
+       match st_generate_adms st0 (k_garm k) (k_supplied k) fresh with
+       | (_, Err _) => false
+       | (st, Ok dgs) =>
+           list_eqb (fun x y => (fst x =? fst (fst y)) && (snd x =? snd (fst y))) (sort_by dgs) OB &&
            list_eqb N.eqb (map fst (sort_by st)) (o_store_keys o) &&
-           graph_eqb (sview st (k_garm k)) (match o_arm_after o with Some g => g | None => A end) &&
+           graph_eqb (sview st (k_garm k)) after &&
            forallb (fun x => graph_eqb (sview st (snd (fst x))) (snd x)) OB
        end) &&
       (* rewrite_delegations on every ADM *)
       list_eqb (fun x y => (fst (fst x) =? fst (fst y)) && eq_rw (rewrite_delegations (snd x) (snd (fst y))) (snd y)) OB (o_rw o)
-  | _, _ => false
   end &&
   match o_rw_arm o with
   | None => true
